@@ -57,9 +57,10 @@ let hex_of_z (x : z) : string =
 let split_list conv s = if s = "-" || s = "" then [] else List.map conv (String.split_on_char ',' s)
 
 let () =
-  let max_print = ref 400 and nsamples = ref 6 in
+  let max_print = ref 400 and nsamples = ref 6 and verdicts = ref false in
   Array.iteri (fun i a -> if a = "--max-print" then max_print := int_of_string Sys.argv.(i+1)
-                          else if a = "--samples" then nsamples := int_of_string Sys.argv.(i+1)) Sys.argv;
+                          else if a = "--samples" then nsamples := int_of_string Sys.argv.(i+1)
+                          else if a = "--verdicts" then verdicts := true) Sys.argv;
   let n = ref 0 and nt = ref 0 and mism = ref 0 and bad = ref 0 in
   let seen : (int, unit) Hashtbl.t = Hashtbl.create 100003 in
   let distinct = ref 0 in
@@ -79,6 +80,10 @@ let () =
             let v = judge (z_of_dec fam) (split_list z_of_dec cfg) (z_of_dec op)
                       (split_list z_of_hex args) resl in
             incr n;
+            (* extraction self-check: the complete verdict, one line per case, compared with the same term evaluated inside Coq *)
+            if !verdicts then
+              Printf.printf "V %d %d %s\n" (if v_ok v then 1 else 0) (if v_nontrivial v then 1 else 0)
+                (match v_model v with [] -> "-" | l -> String.concat "," (List.map hex_of_z l));
             let key = fam ^ " " ^ cfg ^ " " ^ op in
             let (c, m) = try Hashtbl.find per key with Not_found -> (0, 0) in
             if v_nontrivial v then begin
